@@ -52,7 +52,7 @@ func runC11(ctx *h.Ctx) int {
 	maxN := 3
 	var all []*shape
 	for n := 1; n <= maxN; n++ {
-		all = append(all, enumShapes(n, false)...)
+		all = append(all, enumShapes(n, map[int]int{1: 2, 2: 2}[n])...)
 	}
 	ctx.RunCases("autovar-skeletons", len(all)*ctx.N(2, 6), func(k *h.Case) {
 		sh := all[k.Index%len(all)]
